@@ -428,6 +428,20 @@ def state_rules(run, db):
               'only the ray (Pj, Sj) and the current index nj flow from one surface to the next; everything else is recomputed from the surface at hand (carried: %s)' % sorted(carried),
               'in the per-surface loop `%s` may keep its value from an EARLIER surface (read before it is assigned on some path through the loop body): a surface without that '
               'attribute is then processed with the previous surface\'s value (e.g. a stale rotation R^T applied to an untilted surface after a tilted one)' % ', '.join(extra), ft.loc(loops[0]))
+    from .common import reaching_at_end, ENTRY
+    reach = reaching_at_end(loops[0].body, 'nj')
+    bad = []
+    for d in reach:
+        if d is ENTRY:
+            continue
+        ok_d = isinstance(d, ast.Assign) and ast.unparse(d.value) == 'nprime'
+        if ok_d:
+            par = [n for n in ast.walk(loops[0]) if isinstance(n, ast.If) and d in n.body + n.orelse]
+            ok_d = any('STYPE_REFRACT' in ast.unparse(n.test) and d in n.body for n in par) or any(d in n.orelse for n in par)
+        if not ok_d:
+            bad.append(norm_stmt(d))
+    run.check(not bad, 'C19.rigid', ft.qual, 'running index', 'the index the ray travels in changes only at a refracting surface (to that surface\'s index); mirrors and evaluation surfaces leave it alone',
+              'the running refractive index can be set by %s: a mirror inside glass followed by a refracting surface is then traced with the wrong incident index (Snell violated there)' % bad, ft.loc(loops[0]))
     missing = sorted(allowed - carried)
     if missing:
         raise AnalysisError('raytrace: expected loop-carried state %s not found' % missing)
